@@ -275,19 +275,28 @@ fn build_p2p<C: HCfg>(
     net: &Rc<RefCell<SimNet>>,
 ) -> Result<P2PSession<C>, GgrsError> {
     let p = &scn.peers[pi];
-    let mut b = SessionBuilder::<C>::new()
-        .with_num_players(scn.num_players)?
-        .with_max_prediction_window(p.window)
-        .with_input_delay(p.delay)
-        .with_sparse_saving_mode(p.sparse)
-        .with_fps(scn.fps)?
-        .with_disconnect_timeout(Duration::from_millis(p.timeout_ms))
-        .with_disconnect_notify_delay(Duration::from_millis(p.notify_ms))
-        .with_desync_detection_mode(if p.desync > 0 {
-            DesyncDetection::On { interval: p.desync }
-        } else {
-            DesyncDetection::Off
-        });
+    let desync = if p.desync > 0 { DesyncDetection::On { interval: p.desync } } else { DesyncDetection::Off };
+    let mut b = if p.builder_order == 0 {
+        SessionBuilder::<C>::new()
+            .with_num_players(scn.num_players)?
+            .with_max_prediction_window(p.window)
+            .with_input_delay(p.delay)
+            .with_sparse_saving_mode(p.sparse)
+            .with_fps(scn.fps)?
+            .with_disconnect_timeout(Duration::from_millis(p.timeout_ms))
+            .with_disconnect_notify_delay(Duration::from_millis(p.notify_ms))
+            .with_desync_detection_mode(desync)
+    } else {
+        SessionBuilder::<C>::new()
+            .with_desync_detection_mode(desync)
+            .with_disconnect_notify_delay(Duration::from_millis(p.notify_ms))
+            .with_disconnect_timeout(Duration::from_millis(p.timeout_ms))
+            .with_fps(scn.fps)?
+            .with_sparse_saving_mode(p.sparse)
+            .with_input_delay(p.delay)
+            .with_max_prediction_window(p.window)
+            .with_num_players(scn.num_players)?
+    };
     for h in 0..scn.num_players {
         let owner = scn.owner_of(h);
         let pt = if owner == pi {
